@@ -301,8 +301,9 @@ def py_crit(c, fnmk):
     if k == "f": return fnmk(c[1])
     if k == "r": return _RE[c[1]]
     if k == "o": return c[1]
-    if k == "N": return [["nested"]]
-    return [py_crit(x, fnmk) if x[0] != "N" else ["nested", "list"] for x in c[1]]
+    if k == "N": return [True, "a"]
+    # a nested list is ignored as a whole (filter.py:458-469); its content would match a lot if it were looked into
+    return [py_crit(x, fnmk) if x[0] != "N" else [True, "a", re.compile(".")] for x in c[1]]
 
 
 def atoms(c):
@@ -490,6 +491,9 @@ def gen_query(r, snap: Snap, target=None):
     shape = r.random()
     if shape < 0.06:
         return q                                    # no criteria at all
+    if shape < 0.26:                                # a name alone: the fast paths of _find_all (when no limit is given)
+        q.name = ("b", True) if r.random() < 0.2 else ("s", r.choice(name_pool))
+        return q
     only_string = target is not None and not snap.is_tag[target] and r.random() < 0.8
     if not only_string:
         if r.random() < 0.6:
@@ -512,6 +516,8 @@ def gen_query(r, snap: Snap, target=None):
             q.kwargs = [(k, gen_crit(r, tvals.get("class" if k == "class_" else k, []) * 12 + ((CLASS_TOKENS + ["u v", "v w"]) if k in ("class_", "rel") else val_pool), "attr")) for k in keys]
     if only_string or r.random() < 0.22:
         q.string = gen_crit(r, text_pool, "string")
+    if not q.crits() and r.random() < 0.8:
+        q.name = gen_crit(r, name_pool, "name", allow_none=False)
     return q
 
 
@@ -669,6 +675,19 @@ def classify(q: Q, limit, form):
     return None
 
 
+def code_path(q: Q, limit):
+    """which branch of _find_all the case is expected to take (for the input distribution only)"""
+    basic = q.string == ("n",) and not q.kwargs and (not q.attrs[1] if q.attrs[0] == "D" else not py_truthy(q.attrs[1]))
+    if basic and q.name == ("n",):
+        return "no-criteria-branch"
+    if basic and not limit:
+        if q.name == ("b", True):
+            return "fast-all-tags"
+        if q.name[0] == "s":
+            return "fast-name-prefixed" if q.name[1].count(":") == 1 else "fast-name"
+    return "soupstrainer" + ("-limit" if limit else "")
+
+
 def py_truthy(c):
     k = c[0]
     if k == "n": return False
@@ -795,6 +814,9 @@ def check_case(ctx: Ctx, snap, case, tree_kind, lines, pend):
                      "query": q.describe(), "result": show_res(real)} if nontriv and ctx.evaluations % 997 == 0 else None)
     ctx.count(f"family:{fam}")
     ctx.count(f"form:{form}")
+    ctx.count("path:" + code_path(q, limit if form != "one" else 1))
+    if any(snap.is_tag[i] and snap.nodes[i].prefix for i in snap.axis(fam, start)):
+        ctx.count("axis:has-prefixed-tag")
     ctx.count(f"limit:{limit}")
     ctx.count(f"tree:{tree_kind}")
     ctx.count("result:" + ("exc" if isinstance(real, str) else "none" if real in (None, []) else "some"))
@@ -957,6 +979,8 @@ def run(ctx: Ctx):
         "Tag.__getattr__ is exercised only with names that are not real attributes of the object; NAMETag is the documented BS3 alias of find(NAME)",
         "CSS: trees inside the comparable fragment (lower-case names, class/rel list-valued without empty/space items); selectors type, "
         ".class, #id, [a], [a=v] (non-class attributes), descendant and child combinators; soupsieve itself is recorded",
+        "an ElementFilter object passed as `name` is outside the query grammar; a broken Lean obligation (the model has no data "
+        "tables, only the literals checked by gen_constants_agree) is searched for with the same directed + random streams",
         "tag prefixes are None or non-empty and colon-free with colon-free local names (XML NCNames); unprefixed names may contain colons",
     ]
     drv = Driver()
